@@ -160,6 +160,7 @@ type Run struct {
 	distinct      map[string]struct{}
 	Hist          map[string]int
 	Samples       []any
+	autoSamples   []string
 	Violations    []Violation
 	KnownHits     map[string]int // finding id -> hits
 	KnownPrinted  map[string]bool
@@ -215,6 +216,16 @@ func (r *Run) Count(key string, feats ...string) {
 	if key != "" {
 		if len(r.distinct) < 2_000_000 {
 			r.distinct[key] = struct{}{}
+		}
+		// the first distinct cases, written out: the samples of a property whose harness records none of its own
+		if len(r.autoSamples) < 3 && len(key) > 8 && key != "replay" {
+			dup := false
+			for _, a := range r.autoSamples {
+				dup = dup || a == truncate(key, 1800)
+			}
+			if !dup {
+				r.autoSamples = append(r.autoSamples, truncate(key, 1800))
+			}
 		}
 	}
 	for _, f := range feats {
@@ -390,7 +401,20 @@ func (r *Run) Finish(spec Spec, audit *AuditInfo) int {
 		cov[k] = v
 	}
 	if len(r.Samples) == 0 {
-		cov["samples"] = []any{"(no case generated)"}
+		var ss []any
+		for _, a := range r.autoSamples {
+			ss = append(ss, map[string]any{"case": a})
+		}
+		if len(ss) == 0 {
+			ss = []any{"(no case generated)"}
+		}
+		cov["samples"] = ss
+	}
+	if spec.Level == "translation_validation" {
+		// programs = distinct (operation / document / history, data) cases translated by the implementation and judged against the
+		// reference; disagreements_checked = comparisons of an implementation output with the reference output performed
+		cov["programs"] = len(r.distinct)
+		cov["disagreements_checked"] = r.TracesVsImpl
 	}
 	ev := map[string]any{
 		"property_id": r.Prop,
